@@ -4,7 +4,8 @@
    run of the real library (instrumented from outside), and the facts observed on the real objects at the end of the
    run, encoded as lists of numbers:
 
-     [phase] ; [interruptable] ; one entry [vol; status; listed; ran] per payload ever passed to do()
+     [phase] ; [interruptable; state of _cancel_self] ; one entry [vol; status; listed; ran] per payload ever
+     passed to do()
 
    [bad_cases] = indices of the cases in which some label is not enabled ([run] = None) or the final state of the
    model differs from the observation.  [diagnose] renders the model side of one case (first disabled label, the
@@ -28,9 +29,10 @@ Definition enc_phase (p : phase) : list nat :=
   | Exited c o => [4; enc_cause c; enc_outcome o]
   end.
 Definition b2n (b : bool) : nat := if b then 1 else 0.
+Definition enc_sig (x : sigst) : nat := match x with Idle => 0 | Scheduled => 1 | Revoked => 2 end.
 Definition enc_child (c : child) : list nat := [b2n (vol c); enc_st (st c); b2n (listed c); b2n (ran c)].
 Definition enc_state (s : state) : list (list nat) :=
-  enc_phase (ph s) :: [b2n (interruptable s)] :: map enc_child (kids s).
+  enc_phase (ph s) :: [b2n (interruptable s); enc_sig (cs s)] :: map enc_child (kids s).
 
 Fixpoint list_beq {A} (eq : A -> A -> bool) (l1 l2 : list A) : bool :=
   match l1, l2 with
